@@ -427,6 +427,23 @@ func checkHandleAuthError(r *Report, en string, gp *goPartial) {
 	if statusCalls < 2 {
 		viol = fmt.Sprintf("%s: expected >= 2 status-writing calls (custom + standard reply) in handleAuthorizationError, found %d", gp.site(fd.Pos()), statusCalls)
 	}
+	// ... and it is the callback's status as given: a local that carries it is not overwritten
+	// (clamped, defaulted, mapped) on the way to the reply
+	ast.Inspect(fd, func(n ast.Node) bool {
+		as, ok := n.(*ast.AssignStmt)
+		if !ok || as.Tok == token.DEFINE {
+			return true
+		}
+		for _, l := range as.Lhs {
+			if id, ok := l.(*ast.Ident); ok {
+				if d, has := defs[id.Name]; has && derives(d, errParam+".StatusCode", 0) {
+					viol = fmt.Sprintf("%s: %s, which carries %s.StatusCode to the reply, is overwritten: for some refusals the client sees another status than the callback's", gp.site(as.Pos()), id.Name, errParam)
+					sites = append(sites, gp.site(as.Pos()))
+				}
+			}
+		}
+		return true
+	})
 	// custom payload under CustomError != nil
 	customOK := false
 	ast.Inspect(fd, func(n ast.Node) bool {
